@@ -1,6 +1,187 @@
-import CmModel.Lab
-/-! # C10 — placeholder until the real-number theorems are merged -/
+import CmProofs.ColorReal
+/-!
+# C10 — OKLCH
+
+* ranges of `rgbToOklch` at the real-number carrier (`L ∈ [0,1]`, `C ≥ 0`, `H ∈ [0,360)`), hence
+  `validOklch (rgbToOklch c)` at ℝ;
+* for **any** carrier (no laws): `oklchToRgb` / `oklchToRgbSafe` return valid 8-bit triples and the
+  `_safe` wrappers agree with the plain functions on valid data;
+* rows of the inverse matrix sum to one, so at ℝ an achromatic OKLCH colour (`C = 0`) has three equal
+  linear-light channels `L³` and maps to a grey; black and white are exact.
+-/
 namespace CmProps.C10
-open Cm
-theorem validRgb_def (c : RGB) : validRgb c = ((0 ≤ c.1 && c.1 ≤ 255) && (0 ≤ c.2.1 && c.2.1 ≤ 255) && (0 ≤ c.2.2 && c.2.2 ≤ 255)) := rfl
+open Cm Real
+
+/-! ## 1. ranges of `rgbToOklch` at ℝ -/
+section real
+theorem oklch_L_range (c : RGB) :
+    0 ≤ (@rgbToOklch ℝ realNum c).1 ∧ (@rgbToOklch ℝ realNum c).1 ≤ 1 := by
+  unfold rgbToOklch
+  rcases h : @rgbToOklab ℝ realNum c with ⟨L, a, b⟩
+  simp only [real_pmax, real_pmin, real_sci]
+  constructor
+  · exact le_trans (by norm_num) (le_max_left _ _)
+  · exact max_le (by norm_num) (le_trans (min_le_left _ _) (by norm_num))
+
+theorem oklch_C_nonneg (c : RGB) : 0 ≤ (@rgbToOklch ℝ realNum c).2.1 := by
+  unfold rgbToOklch
+  rcases h : @rgbToOklab ℝ realNum c with ⟨L, a, b⟩
+  exact Real.sqrt_nonneg _
+
+theorem oklch_H_range (c : RGB) :
+    0 ≤ (@rgbToOklch ℝ realNum c).2.2 ∧ (@rgbToOklch ℝ realNum c).2.2 < 360 := by
+  unfold rgbToOklch
+  rcases h : @rgbToOklab ℝ realNum c with ⟨L, a, b⟩
+  simp only [hueAngle_real, real_sci]
+  split_ifs
+  · norm_num
+  · exact hueR_range a b
+
+theorem oklch_valid (c : RGB) : @validOklch ℝ realNum (@rgbToOklch ℝ realNum c) = true := by
+  have hL := oklch_L_range c
+  have hC := oklch_C_nonneg c
+  have hH := oklch_H_range c
+  rcases h : @rgbToOklch ℝ realNum c with ⟨L, C, H⟩
+  rw [h] at hL hC hH
+  unfold validOklch
+  simp only [Bool.and_eq_true, real_le, real_sci, Bool.not_eq_true', real_lt_false]
+  norm_num
+  exact ⟨⟨hL, hC⟩, hH.1, hH.2.le⟩
+end real
+
+/-! ## 2. 8-bit validity and the `_safe` wrappers — any carrier, no laws -/
+section anyCarrier
+variable {α : Type} [NumT α]
+
+theorem ofOklch_valid (t : α × α × α) : validRgb (oklchToRgb t) = true := by
+  rw [oklchToRgb_eq, validRgb_iff]
+  exact ⟨quant8_range _, quant8_range _, quant8_range _⟩
+
+theorem ofOklchSafe_valid (t : α × α × α) : validRgb (oklchToRgbSafe t) = true := by
+  unfold oklchToRgbSafe
+  have hf : ∀ n : Int, validRgb (max 0 (min 255 n), max 0 (min 255 n), max 0 (min 255 n)) = true := by
+    intro n
+    rw [validRgb_iff]
+    have : 0 ≤ max 0 (min 255 n) ∧ max 0 (min 255 n) ≤ 255 :=
+      ⟨le_max_left _ _, max_le (by decide) (min_le_left _ _)⟩
+    exact ⟨this, this, this⟩
+  simp only
+  split_ifs
+  · exact hf _
+  · exact hf _
+  · exact ofOklch_valid t
+
+theorem safe_eq_plain_on_valid (t : α × α × α) (h : validOklch t = true) :
+    oklchToRgbSafe t = oklchToRgb t := by
+  unfold oklchToRgbSafe
+  simp only [h, ofOklch_valid t, Bool.not_true, Bool.false_eq_true, if_false]
+
+theorem safe_eq_plain_on_valid_rgb (c : RGB) (hc : validRgb c = true)
+    (h : validOklch (rgbToOklch (α := α) c) = true) :
+    rgbToOklchSafe (α := α) c = rgbToOklch c := by
+  unfold rgbToOklchSafe
+  simp only [hc, h, Bool.not_true, Bool.false_eq_true, if_false]
+end anyCarrier
+
+/-! ## 3. inverse matrix rows, achromatic colours, black and white (ℝ) -/
+theorem inv_rows_sum_one :
+    (4.0767416621 - 3.3077115913 + 0.2309699292 : ℝ) = 1 ∧
+    (-1.2684380046 + 2.6097574011 - 0.3413193965 : ℝ) = 1 ∧
+    (-0.0041960863 - 0.7034186147 + 1.7076147010 : ℝ) = 1 := by
+  norm_num
+
+theorem safeCube_real (x : ℝ) : @safeCube ℝ realNum x = x ^ 3 := by
+  unfold safeCube
+  simp only [real_mul, real_neg]
+  split_ifs <;> ring
+
+theorem achromatic_linear (L H : ℝ) :
+    @oklchToLinear ℝ realNum (L, 0, H) = (L ^ 3, L ^ 3, L ^ 3) := by
+  unfold oklchToLinear
+  simp only [safeCube_real, real_sci, real_add, real_sub, real_mul, real_div, real_neg, real_cos,
+    real_sin, real_pi, zero_mul, mul_zero, add_zero, sub_zero]
+  refine Prod.ext ?_ (Prod.ext ?_ ?_) <;> simp only <;> ring
+
+theorem achromatic_grey (L H : ℝ) :
+    let c := @oklchToRgb ℝ realNum (L, 0, H)
+    c.1 = c.2.1 ∧ c.2.1 = c.2.2 := by
+  intro c
+  simp only [c, oklchToRgb_eq, achromatic_linear, and_self]
+
+theorem roundHE_real_int (n : ℤ) : @Num.roundHE ℝ realNum.toNum (n : ℝ) = n := by
+  unfold Num.roundHE
+  simp only [real_floor, Int.floor_intCast, real_ofInt, sub_self, real_sci]
+  rw [if_pos]
+  rw [real_lt]; norm_num
+
+theorem quant8_real_zero : @quant8 ℝ realNum 0 = 0 := by
+  unfold quant8
+  simp only [zero_mul]
+  have := roundHE_real_int 0
+  rw [Int.cast_zero] at this
+  rw [this]; rfl
+
+theorem quant8_real_one : @quant8 ℝ realNum 1 = 255 := by
+  unfold quant8
+  simp only [one_mul, real_sci]
+  have := roundHE_real_int 255
+  rw [show ((255 : ℤ) : ℝ) = (255.0 : ℝ) by norm_num] at this
+  rw [this]; rfl
+
+theorem linearToSrgb_real_zero : @linearToSrgb ℝ realNum 0 = 0 := by
+  unfold linearToSrgb
+  rw [if_pos]
+  · simp only [mul_zero]
+  · rw [real_le, real_sci]; norm_num
+
+theorem linearToSrgb_real_one : @linearToSrgb ℝ realNum 1 = 1 := by
+  unfold linearToSrgb
+  rw [if_neg]
+  · simp only [real_mul, real_sub, real_rpow, real_sci, Real.one_rpow]; norm_num
+  · rw [real_le, real_sci]; norm_num
+
+theorem clamp01_real (x : ℝ) : @clamp01 ℝ realNum x = max 0 (min 1 x) := by
+  unfold clamp01
+  simp only [real_pmax, real_pmin, real_sci]
+  norm_num
+
+theorem black (H : ℝ) : @oklchToRgb ℝ realNum (0, 0, H) = (0, 0, 0) := by
+  rw [@oklchToRgb_eq ℝ realNum, achromatic_linear]
+  simp only [clamp01_real]
+  norm_num
+  rw [linearToSrgb_real_zero, quant8_real_zero]
+
+theorem white (H : ℝ) : @oklchToRgb ℝ realNum (1, 0, H) = (255, 255, 255) := by
+  rw [@oklchToRgb_eq ℝ realNum, achromatic_linear]
+  simp only [clamp01_real]
+  norm_num
+  rw [linearToSrgb_real_one, quant8_real_one]
+
+/-- the returned channels of an achromatic colour, explicitly -/
+theorem achromatic_channels (L H : ℝ) :
+    @oklchToRgb ℝ realNum (L, 0, H) =
+      (@quant8 ℝ realNum (@linearToSrgb ℝ realNum (max 0 (min 1 (L ^ 3)))),
+       @quant8 ℝ realNum (@linearToSrgb ℝ realNum (max 0 (min 1 (L ^ 3)))),
+       @quant8 ℝ realNum (@linearToSrgb ℝ realNum (max 0 (min 1 (L ^ 3))))) := by
+  rw [@oklchToRgb_eq ℝ realNum, achromatic_linear]
+  simp only [clamp01_real]
+
+/-- at ℝ the second hypothesis of `safe_eq_plain_on_valid_rgb` always holds -/
+theorem rgbToOklchSafe_real (c : RGB) (hc : validRgb c = true) :
+    @rgbToOklchSafe ℝ realNum c = @rgbToOklch ℝ realNum c :=
+  @safe_eq_plain_on_valid_rgb ℝ realNum c hc (oklch_valid c)
+
+/-! ## satisfiability of the hypotheses -/
+
+/-- `validOklch t = true` is satisfiable (ℝ carrier) -/
+example : @validOklch ℝ realNum (0.5, 0.1, 30) = true := by
+  unfold validOklch
+  simp only [Bool.and_eq_true, real_le, real_sci, Bool.not_eq_true', real_lt_false]
+  norm_num
+
+/-- both hypotheses of `safe_eq_plain_on_valid_rgb` hold together (ℝ carrier) -/
+example : validRgb (12, 200, 255) = true ∧
+    @validOklch ℝ realNum (@rgbToOklch ℝ realNum (12, 200, 255)) = true :=
+  ⟨by decide, oklch_valid _⟩
+
 end CmProps.C10
